@@ -80,6 +80,11 @@ pub struct Cfg {
     pub count_ticks: bool,
     pub wrapping: bool,
     pub events: bool,
+    /// A violated capacity law (capacity decreased / changed without a create on a full archetype)
+    /// says nothing about the entity model: checks of other properties than C12 / C19 count it as
+    /// collateral and carry on with the capacity they observe, instead of abandoning the case
+    /// (what happens to handles *after* a storage shrank is exactly what they want to see).
+    pub lenient_capacity: bool,
 }
 
 impl Cfg {
@@ -91,6 +96,7 @@ impl Cfg {
             count_ticks: false,
             wrapping: cfg!(feature = "wrapping"),
             events: cfg!(feature = "events"),
+            lenient_capacity: false,
         }
     }
 }
